@@ -62,9 +62,9 @@ theorem pin_adt_mustDec : Gen.C07.pin_adt_mustDec = "848bdb3845cb7825" := by dec
 theorem pin_adt_BoundValue_Kind : Gen.C07.pin_adt_BoundValue_Kind = "fc65d3abf272dcaa" := by decide
 theorem pin_adt_MakeIdentLabel : Gen.C07.pin_adt_MakeIdentLabel = "3a20dd3dfb38fb4a" := by decide
 theorem pin_export_boundSimplifier_add : Gen.C07.pin_export_boundSimplifier_add = "d10a5f3492528d7d" := by decide
-theorem pin_export_boundSimplifier_expr : Gen.C07.pin_export_boundSimplifier_expr = "20b14388e74ed567" := by decide
+theorem pin_export_boundSimplifier_expr : Gen.C07.pin_export_boundSimplifier_expr = "1b98906d828b11dc" := by decide
 theorem pin_export_wrapBin : Gen.C07.pin_export_wrapBin = "ab44f6442afd03d4" := by decide
-theorem pin_export_exporter_stringLabel : Gen.C07.pin_export_exporter_stringLabel = "58f67c25a1b4ed0c" := by decide
+theorem pin_export_exporter_stringLabel : Gen.C07.pin_export_exporter_stringLabel = "6c2ef819378900d4" := by decide
 theorem pin_export_exporter_boundValue : Gen.C07.pin_export_exporter_boundValue = "25682c03e7135c2d" := by decide
 theorem pin_export_exporter_num : Gen.C07.pin_export_exporter_num = "0b799d352730a988" := by decide
 theorem pin_export_exporter_listComposite : Gen.C07.pin_export_exporter_listComposite = "757ac087d2ed28f1" := by decide
@@ -72,7 +72,7 @@ theorem pin_export_exporter_structComposite : Gen.C07.pin_export_exporter_struct
 theorem pin_export_exporter_vertex : Gen.C07.pin_export_exporter_vertex = "83c2267878d0f7b6" := by decide
 theorem pin_export_Profile_Vertex : Gen.C07.pin_export_Profile_Vertex = "6f632b0e1de46076" := by decide
 theorem pin_export_Profile_Def : Gen.C07.pin_export_Profile_Def = "dbec4570e288c2cb" := by decide
-theorem pin_export_exporter_value_case_Conjunction : Gen.C07.pin_export_exporter_value_case_Conjunction = "aef833eceb0b9ee1" := by decide
+theorem pin_export_exporter_value_case_Conjunction : Gen.C07.pin_export_exporter_value_case_Conjunction = "93a4621608a7eb52" := by decide
 theorem pin_export_exporter_value_case_Disjunction : Gen.C07.pin_export_exporter_value_case_Disjunction = "4af6d98441bee49e" := by decide
 theorem pin_ast_NewStringLabel : Gen.C07.pin_ast_NewStringLabel = "9cfae78901d1695f" := by decide
 theorem pin_ast_StringLabelNeedsQuoting : Gen.C07.pin_ast_StringLabelNeedsQuoting = "8e5531b8cb8df961" := by decide
